@@ -41,10 +41,15 @@ def normalizeNames (rules : List (Key × Val)) : List (Key × Val) :=
 
 def ofPrefixes : List String := ["allof", "anyof", "noneof", "oneof"]
 
-/-- `operator, rule = of_rule.split('_', 1)` for a key that starts with `<operator>_` -/
-def splitOf (name : String) : Option (String × String) :=
-  ofPrefixes.findSome? (fun p =>
-    if name.startsWith (p ++ "_") then some (p, (name.drop (p.length + 1)).toString) else none)
+/-- `operator, rule = of_rule.split('_', 1)` for a key that starts with `<operator>_`:
+    the split is at the *first* underscore, so the rule part may contain underscores -/
+def splitOfChars (cs : List Char) : List String → Option (String × String)
+  | [] => none
+  | p :: ps =>
+    if (p.toList ++ ['_']).isPrefixOf cs then some (p, String.ofList (cs.drop (p.toList.length + 1)))
+    else splitOfChars cs ps
+
+def splitOf (name : String) : Option (String × String) := splitOfChars name.toList ofPrefixes
 
 /-- iteration of a constraint by `for value in rules[of_rule]`; `none` = `TypeError` -/
 def iterConstraint : Val → Option (List Val)
